@@ -98,7 +98,7 @@ func (s *Service) Subscribe(ctx context.Context,
 		for slot, slotInfo := range subscriptionInfo {
 			if slot <= currentSlot {
 				log.Trace().Uint64("current_slot", uint64(currentSlot)).Uint64("duty_slot", uint64(slot)).Msg("Subscription not for a future slot; ignoring")
-				return
+				continue
 			}
 			for committeeIndex, info := range slotInfo {
 				subscriptions = append(subscriptions, &apiv1.BeaconCommitteeSubscription{
